@@ -115,6 +115,8 @@ pub enum Ev
     LastPollEnd,
     Post(Box<Post>),
     Panic(String),
+    /// The bystander world misbehaved (message), or was observed (`ok` messages are not logged).
+    Bystander(String),
     /// Runner hook events (hooks only): kind, system entity bits.
     Runner(u8, u64),
 }
